@@ -557,11 +557,13 @@ pub fn exec_schedule(schedule: &[Value], keep_trace: bool) -> World {
 /// Re-execution for the minimiser, in a FRESH PROCESS: neither per-thread nor process-wide state
 /// the library may keep (a cache, a poisoned lock) carries over from one candidate schedule to the
 /// next, nor from the minimiser into anything the parent does afterwards.
-fn fails_same(schedule: &[Value], property: &str, oracle: &str) -> bool {
+fn fails_same(schedule: &[Value], property: &str, oracle: &str, key: &Value) -> bool {
     static N: AtomicU64 = AtomicU64::new(0);
     let dir = std::env::temp_dir();
     let path = dir.join(format!("gmsim-min-{}-{}.json", std::process::id(), N.fetch_add(1, Ordering::Relaxed)));
-    let doc = json!({"format": 1, "property": property, "oracle": oracle, "schedule": schedule});
+    // same property, same oracle AND same (entry point, input class, outcome): a shortened
+    // schedule that fails in another class (possibly a known finding) is another violation
+    let doc = json!({"format": 1, "property": property, "oracle": oracle, "key": key, "schedule": schedule});
     if std::fs::write(&path, doc.to_string()).is_err() {
         return false;
     }
@@ -606,7 +608,7 @@ fn shrink_hex_fields(op: &Value) -> Vec<Value> {
 }
 
 /// Greedy delta debugging over the schedule: drop ops (chunks, then singles), then simplify ops.
-pub fn minimise(schedule: &[Value], property: &str, oracle: &str, budget: usize) -> (Vec<Value>, usize) {
+pub fn minimise(schedule: &[Value], property: &str, oracle: &str, key: &Value, budget: usize) -> (Vec<Value>, usize) {
     let t0 = Instant::now();
     // long (run-level) schedules get a wall-clock budget as well
     let budget = if schedule.len() > 2000 { budget.min(60) } else { budget };
@@ -616,7 +618,7 @@ pub fn minimise(schedule: &[Value], property: &str, oracle: &str, budget: usize)
         if t0.elapsed() > Duration::from_secs(120) {
             return false;
         }
-        fails_same(s, p, o)
+        fails_same(s, p, o, key)
     };
     let mut chunk = (cur.len() / 2).max(1);
     while chunk >= 1 && tries < budget {
@@ -728,10 +730,11 @@ pub fn replay_file(path: &Path, quiet: bool) -> i32 {
         println!("REPLAY invalid schedule: {e}");
         return 2;
     }
+    let want_key = doc.get("key").cloned().unwrap_or(Value::Null);
     let hit: Vec<&Violation> = w
         .violations
         .iter()
-        .filter(|v| inflight || want_prop.is_empty() || (v.property == want_prop && (want_oracle.is_empty() || v.oracle == want_oracle)))
+        .filter(|v| inflight || want_prop.is_empty() || (v.property == want_prop && (want_oracle.is_empty() || v.oracle == want_oracle) && (want_key.is_null() || v.key == want_key)))
         .collect();
     if hit.is_empty() {
         println!("REPLAY no violation of {want_prop}/{want_oracle} reproduced ({} other)", w.violations.len());
